@@ -110,17 +110,18 @@ func firstLibFrame() string {
 
 // Codec bundles the entry points of one wire format.
 type Codec struct {
-	Name        string
-	Mode        model.Mode
-	NewEnc      func(w io.Writer, opts int) structform.Visitor
-	Parse       func(b []byte, v structform.Visitor) error
-	ParseString func(s string, v structform.Visitor) error
-	ParseReader func(r io.Reader, v structform.Visitor) (int64, error)
-	NewWriter   func(v structform.Visitor) io.Writer // a parser as io.Writer (no end-of-input signal)
-	NewParser   func(v structform.Visitor) interface{}
-	ParseWith   func(p interface{}, b []byte) error // Parser.Parse on an existing parser (may be nil)
-	BytesDec    func(b []byte, v structform.Visitor) Nexter
-	ReaderDec   func(r io.Reader, buf int, v structform.Visitor) Nexter
+	Name         string
+	Mode         model.Mode
+	NewEnc       func(w io.Writer, opts int) structform.Visitor
+	Parse        func(b []byte, v structform.Visitor) error
+	ParseString  func(s string, v structform.Visitor) error
+	ParseReader  func(r io.Reader, v structform.Visitor) (int64, error)
+	NewWriter    func(v structform.Visitor) io.Writer // a parser as io.Writer (no end-of-input signal)
+	NewParser    func(v structform.Visitor) interface{}
+	ParseWith    func(p interface{}, b []byte) error // Parser.Parse on an existing parser (may be nil)
+	ParseStrWith func(p interface{}, s string) error // Parser.ParseString on an existing parser
+	BytesDec     func(b []byte, v structform.Visitor) Nexter
+	ReaderDec    func(r io.Reader, buf int, v structform.Visitor) Nexter
 }
 
 // Nexter is a pull decoder.
@@ -148,40 +149,43 @@ var codecJSON = &Codec{
 		}
 		return v
 	},
-	Parse:       json.Parse,
-	ParseString: json.ParseString,
-	ParseReader: json.ParseReader,
-	NewWriter:   func(v structform.Visitor) io.Writer { return json.NewParser(v) },
-	NewParser:   func(v structform.Visitor) interface{} { return json.NewParser(v) },
-	ParseWith:   func(p interface{}, b []byte) error { return p.(*json.Parser).Parse(b) },
-	BytesDec:    func(b []byte, v structform.Visitor) Nexter { return json.NewBytesDecoder(b, v) },
-	ReaderDec:   func(r io.Reader, n int, v structform.Visitor) Nexter { return json.NewDecoder(r, n, v) },
+	Parse:        json.Parse,
+	ParseString:  json.ParseString,
+	ParseReader:  json.ParseReader,
+	NewWriter:    func(v structform.Visitor) io.Writer { return json.NewParser(v) },
+	NewParser:    func(v structform.Visitor) interface{} { return json.NewParser(v) },
+	ParseWith:    func(p interface{}, b []byte) error { return p.(*json.Parser).Parse(b) },
+	ParseStrWith: func(p interface{}, s string) error { return p.(*json.Parser).ParseString(s) },
+	BytesDec:     func(b []byte, v structform.Visitor) Nexter { return json.NewBytesDecoder(b, v) },
+	ReaderDec:    func(r io.Reader, n int, v structform.Visitor) Nexter { return json.NewDecoder(r, n, v) },
 }
 
 var codecUBJSON = &Codec{
 	Name: "ubjson", Mode: model.UBJSON,
-	NewEnc:      func(w io.Writer, o int) structform.Visitor { return ubjson.NewVisitor(w) },
-	Parse:       ubjson.Parse,
-	ParseString: ubjson.ParseString,
-	ParseReader: ubjson.ParseReader,
-	NewWriter:   func(v structform.Visitor) io.Writer { return ubjson.NewParser(v) },
-	NewParser:   func(v structform.Visitor) interface{} { return ubjson.NewParser(v) },
-	ParseWith:   func(p interface{}, b []byte) error { return p.(*ubjson.Parser).Parse(b) },
-	BytesDec:    func(b []byte, v structform.Visitor) Nexter { return ubjson.NewBytesDecoder(b, v) },
-	ReaderDec:   func(r io.Reader, n int, v structform.Visitor) Nexter { return ubjson.NewDecoder(r, n, v) },
+	NewEnc:       func(w io.Writer, o int) structform.Visitor { return ubjson.NewVisitor(w) },
+	Parse:        ubjson.Parse,
+	ParseString:  ubjson.ParseString,
+	ParseReader:  ubjson.ParseReader,
+	NewWriter:    func(v structform.Visitor) io.Writer { return ubjson.NewParser(v) },
+	NewParser:    func(v structform.Visitor) interface{} { return ubjson.NewParser(v) },
+	ParseWith:    func(p interface{}, b []byte) error { return p.(*ubjson.Parser).Parse(b) },
+	ParseStrWith: func(p interface{}, s string) error { return p.(*ubjson.Parser).ParseString(s) },
+	BytesDec:     func(b []byte, v structform.Visitor) Nexter { return ubjson.NewBytesDecoder(b, v) },
+	ReaderDec:    func(r io.Reader, n int, v structform.Visitor) Nexter { return ubjson.NewDecoder(r, n, v) },
 }
 
 var codecCBOR = &Codec{
 	Name: "cborl", Mode: model.Exact,
-	NewEnc:      func(w io.Writer, o int) structform.Visitor { return cborl.NewVisitor(w) },
-	Parse:       cborl.Parse,
-	ParseString: cborl.ParseString,
-	ParseReader: cborl.ParseReader,
-	NewWriter:   func(v structform.Visitor) io.Writer { return cborl.NewParser(v) },
-	NewParser:   func(v structform.Visitor) interface{} { return cborl.NewParser(v) },
-	ParseWith:   func(p interface{}, b []byte) error { return p.(*cborl.Parser).Parse(b) },
-	BytesDec:    func(b []byte, v structform.Visitor) Nexter { return cborl.NewBytesDecoder(b, v) },
-	ReaderDec:   func(r io.Reader, n int, v structform.Visitor) Nexter { return cborl.NewDecoder(r, n, v) },
+	NewEnc:       func(w io.Writer, o int) structform.Visitor { return cborl.NewVisitor(w) },
+	Parse:        cborl.Parse,
+	ParseString:  cborl.ParseString,
+	ParseReader:  cborl.ParseReader,
+	NewWriter:    func(v structform.Visitor) io.Writer { return cborl.NewParser(v) },
+	NewParser:    func(v structform.Visitor) interface{} { return cborl.NewParser(v) },
+	ParseWith:    func(p interface{}, b []byte) error { return p.(*cborl.Parser).Parse(b) },
+	ParseStrWith: func(p interface{}, s string) error { return p.(*cborl.Parser).ParseString(s) },
+	BytesDec:     func(b []byte, v structform.Visitor) Nexter { return cborl.NewBytesDecoder(b, v) },
+	ReaderDec:    func(r io.Reader, n int, v structform.Visitor) Nexter { return cborl.NewDecoder(r, n, v) },
 }
 
 var codecs = []*Codec{codecJSON, codecUBJSON, codecCBOR}
